@@ -37,14 +37,3 @@ func VerifH_C09_LdReadSize() {
 	vCover("unexpected-eof", err == io.ErrUnexpectedEOF)
 	vCover("clean-eof", err == io.EOF && r.pos == 0)
 }
-
-func VerifH_C99_Debug() {
-	in := vBytes("in", 3)
-	max := vU64("max")
-	r := &vStream{data: in[:2]}
-	l, err := LdReadSize(r, false, max)
-	vCover("too-large", err == ErrSectionTooLarge)
-	vCover("ok", err == nil)
-	vCover("other", err != nil)
-	_ = l
-}
